@@ -182,8 +182,9 @@ def run_inst(spec, run):
                 if mu == "lost_solution":
                     v3b = z3.And(red_feas, z3.Not(z3.And(feas_sub, inbox_f, xs[rem_c[0]].e > los[rem_c[0]].e))) if rem_c else v3b
                 run.obligation(ctx, "nothing-gained", v3b, conc)
+                edge = [l.e == -32768 for l in los if not z3.is_int_value(z3.simplify(l.e))] + [u.e == 32767 for u in his if not z3.is_int_value(z3.simplify(u.e))]
                 run.validate(ctx, conc, lambda m: {"rows": [int(v) for v in rmask], "cols": [None if isnan(v) else S.model_int(m, v) for v in cols],
-                                                   "R": [[S.model_int(m, R[i, j]) for j in range(R.shape[1])] for i in range(R.shape[0])]})
+                                                   "R": [[S.model_int(m, R[i, j]) for j in range(R.shape[1])] for i in range(R.shape[0])]}, extremes=(z3.Or(edge) if edge else None))
             run.sample({"A": A, "boxes": spec["boxes"], "part": spec["part"], "path_condition": [str(z3.simplify(c)) for c in ctx.pc][:5]})
 
         st = S.explore(fn, on_path, max_paths=20000, wall=1500)
